@@ -23,7 +23,7 @@ import (
 // write. After every write: every attachment of every leaf reads back byte-identical with matching digest and
 // length; data referenced by a leaf exists; data referenced by no leaf of its document is gone.
 
-var c14Alphabet = []string{"d1:+aX", "d1:+aY", "d1:+bX", "d1:-a", "d1:keep", "d1:del", "d1:branch+bY", "d2:+aX", "d2:del"}
+var c14Alphabet = []string{"d1:+aX", "d1:+aY", "d1:+bX", "d1:-a", "d1:keep", "d1:del", "d1:branch+bY", "d1:branchkeep", "d2:+aX", "d2:del"}
 
 var c14Content = map[string][]byte{
 	"X": []byte("content-X"),
@@ -101,7 +101,9 @@ func (e *c14Env) run(t testing.TB, r *vreport.Report, c c14Case) {
 		}
 		win := c14Winner(m)
 		newAtts := map[string]string{}
-		body := Body{"step": step}
+		// every body is larger than the inline limit of the revision tree (250 bytes), so the body of a non-winning
+		// leaf is kept in a separate document
+		body := Body{"step": step, "pad": strings.Repeat("p", 300)}
 		inline := map[string]any{}
 		stub := func(name, content string) {
 			// a stub refers to the parent's attachment by digest and revpos
@@ -114,6 +116,7 @@ func (e *c14Env) run(t testing.TB, r *vreport.Report, c c14Case) {
 		}
 		del := false
 		branch := false
+		branchStubs := map[string]any{}
 		switch {
 		case act == "del":
 			if win == nil || win.deleted {
@@ -138,6 +141,25 @@ func (e *c14Env) run(t testing.TB, r *vreport.Report, c c14Case) {
 			}
 			branch = true
 			newAtts = map[string]string{"b": "Y"}
+			if act == "branchkeep" {
+				// a sibling that keeps (as stubs) what the winner inherited unchanged from their common parent
+				newAtts = map[string]string{}
+				if doc, err := coll.GetDocument(ctx, docID, DocUnmarshalAll); err == nil {
+					g, _ := ParseRevID(ctx, win.rev)
+					for n, meta := range doc.Attachments() {
+						mm, _ := meta.(map[string]any)
+						if revpos, _ := base.ToInt64(mm["revpos"]); int(revpos) < g {
+							if cnt, ok := win.atts[n]; ok {
+								newAtts[n] = cnt
+								branchStubs[n] = mm["revpos"]
+							}
+						}
+					}
+				}
+				if len(newAtts) == 0 {
+					continue
+				}
+			}
 		case strings.HasPrefix(act, "+"):
 			newAtts[string(act[1])] = string(act[2])
 		case strings.HasPrefix(act, "-"):
@@ -152,6 +174,10 @@ func (e *c14Env) run(t testing.TB, r *vreport.Report, c c14Case) {
 			changedName = string(act[1])
 		}
 		for n, cnt := range newAtts {
+			if rp, isStub := branchStubs[n]; isStub {
+				inline[n] = map[string]any{"stub": true, "digest": c14Digest(c14Content[cnt]), "revpos": rp}
+				continue
+			}
 			if branch || n == changedName || win == nil || win.deleted || win.atts[n] != cnt {
 				inline[n] = map[string]any{"data": base64.StdEncoding.EncodeToString(c14Content[cnt])}
 			} else {
@@ -293,7 +319,7 @@ func (e *c14Env) run(t testing.TB, r *vreport.Report, c c14Case) {
 func TestVerifC14(t *testing.T) {
 	r := vreport.Begin("C14")
 	defer r.Finish(t)
-	r.Rule("every history up to depth D over {add or replace attachment a with content X / Y, add b with X (same content under a second name), drop a, update keeping all attachments as stubs, tombstone, conflicting sibling branch carrying b=Y, the same content on a second document, tombstone of the second document}, each also with a forced compare-and-swap retry at the last write; after every write every leaf of every document is read back with attachments; non-trivial = distinct (history, cas-retry)")
+	r.Rule("every history up to depth D over {add or replace attachment a with content X / Y, add b with X (same content under a second name), drop a, update keeping all attachments as stubs, tombstone, conflicting sibling branch carrying b=Y, conflicting sibling branch keeping the inherited attachments as stubs (every body is larger than the revision tree's inline limit, so a non-winning leaf's body is stored separately), the same content on a second document, tombstone of the second document}, each also with a forced compare-and-swap retry at the last write; after every write every leaf of every document is read back with attachments; non-trivial = distinct (history, cas-retry)")
 	r.Assume("database-level API (conflicts allowed so that branches exist); content X is a short text, Y contains every byte value; cross-cluster versioning is off; the replication protocol's attachment allow-list window is not explored here")
 	oldFreq := MaxSequenceIncrFrequency
 	defer func() { MaxSequenceIncrFrequency = oldFreq }()
